@@ -22,98 +22,8 @@ import YashModel.Fork.Model
 namespace YashModel.Fork
 open YashModel.Trap (Disp Sys)
 
-/-! ## `Process` methods -/
-
-/-- `resource_limits.get(&Resource::NOFILE).map(|l| l.soft)` (`none` = `INFINITY`), from the text `ulimit -S -n`
-    prints (the representation of `Proc.nofile`) -/
-def nofileLimit (p : Proc) : Option Nat := if p.nofile = "unlimited" then none else p.nofile.toNat?
-
-/-- the guard of `Process::set_fd` / `Process::has_unused_fd`: `limit == INFINITY || fd < limit` -/
-def fdAllowed (p : Proc) (fd : Nat) : Bool :=
-  match nofileLimit p with
-  | none => true
-  | some l => fd < l
-
-/-- `min_unused_fd(min, fds.keys())`: the lowest descriptor `>= min` that is not open -/
-def minUnusedFd (fds : List (Nat × FdEntry)) (min : Nat) : Nat :=
-  (((List.range (fds.length + 1)).map (· + min)).find? (fun n => (fdGet fds n).isNone)).getD (min + fds.length)
-
-/-- `Process::set_fd(fd, body)`: `Ok` (entry written) or `Err` (nothing changes) -/
-def Proc.setFd (p : Proc) (fd : Nat) (e : FdEntry) : Option Proc :=
-  if fdAllowed p fd then some { p with fds := fdPut p.fds fd e } else none
-
-/-- `Process::open_fd_ge(min_fd, body)` -/
-def Proc.openFdGe (p : Proc) (min : Nat) (e : FdEntry) : Option (Nat × Proc) :=
-  let fd := minUnusedFd p.fds min
-  (p.setFd fd e).map fun q => (fd, q)
-
-/-! ## System calls (`impl … for VirtualSystem`), as functions of the calling process's own `Process` -/
-
-inductive Call where
-  /-- `Umask::umask` -/
-  | umask (m : String)
-  /-- `Chdir::chdir` -/
-  | chdir (path : String)
-  /-- `Open::open` of an existing regular file, write-only, no flags (→ `create_fd` → `open_fd`) -/
-  | open (file : String)
-  /-- `Dup::dup(from, to_min, flags)` -/
-  | dup (src min : Nat) (cloexec : Bool)
-  /-- `Dup::dup2(from, to)` -/
-  | dup2 (src dst : Nat)
-  /-- `Close::close` -/
-  | close (fd : Nat)
-  /-- `Fcntl::fcntl_setfd` -/
-  | setfd (fd : Nat) (cloexec : Bool)
-  /-- `Sigaction::sigaction` -/
-  | sigaction (sig : Nat) (d : Disp)
-  /-- `Sigmask::sigmask(Some((Add | Remove, {sig})), None)` -/
-  | sigmask (block : Bool) (sig : Nat)
-  /-- `SetRlimit::setrlimit(Resource::NOFILE, LimitPair { soft, hard: INFINITY })` -/
-  | setrlimit (soft : String)
-  deriving DecidableEq, Repr
-
-/-- The effect of one call on the `Process` of the caller (`self.current_process_mut()`), and its result
-    (`ok`, `fd<n>`, or the `Errno`).  A failing call changes nothing. -/
-def Call.run : Call → Proc → String × Proc
-  | .umask m, p => ("ok", { p with umask := m })
-  | .chdir path, p =>
-    -- `resolve_existing_file` (relative paths joined to `cwd`), must be a directory; the stored path is
-    -- `cwd.join(path)` with `.` dropped and `..` resolved
-    if dirExists (joinPath p.cwd path) then ("ok", { p with cwd := normalizePath (joinPath p.cwd path) })
-    else ("ENOENT", p)
-  | .open file, p =>
-    -- `has_unused_fd()` is checked before the file is resolved; then `create_fd` → `open_fd`
-    if fdAllowed p (minUnusedFd p.fds 0) then
-      match p.openFdGe 0 { label := file } with
-      | some (fd, q) => (s!"fd{fd}", q)
-      | none => ("EMFILE", p)
-    else ("EMFILE", p)
-  | .dup src min cloexec, p =>
-    match fdGet p.fds src with
-    | none => ("EBADF", p)
-    | some e =>
-      match p.openFdGe min { e with cloexec := cloexec } with
-      | some (fd, q) => (s!"fd{fd}", q)
-      | none => ("EMFILE", p)
-  | .dup2 src dst, p =>
-    match fdGet p.fds src with
-    | none => ("EBADF", p)
-    | some e =>
-      if src = dst then (s!"fd{dst}", p)
-      else match p.setFd dst { e with cloexec := false } with
-        | some q => (s!"fd{dst}", q)
-        | none => ("EBADF", p)
-  | .close fd, p => ("ok", { p with fds := fdDel p.fds fd })
-  | .setfd fd cloexec, p =>
-    match fdGet p.fds fd with
-    | none => ("EBADF", p)
-    | some e => ("ok", { p with fds := fdPut p.fds fd { e with cloexec := cloexec } })
-  | .sigaction sig d, p => ("ok", { p with sys := { p.sys with disp := Trap.upd p.sys.disp sig d } })
-  | .sigmask block sig, p => ("ok", { p with sys := { p.sys with blocked := Trap.upd p.sys.blocked sig block } })
-  | .setrlimit soft, p => ("ok", { p with nofile := soft })
-
-/-- the calls of a process one after the other, on its own `Process` -/
-def runCalls (p : Proc) (cs : List Call) : Proc := cs.foldl (fun q c => (c.run q).2) p
+/-! The `Process` methods, the system calls (`Call`, `Call.runT`, `Call.run`) and `runCalls` live in `Fork/Model.lean`
+    (the mutators of the shell-level model are built from them). -/
 
 /-! ## `SystemState` -/
 
